@@ -397,11 +397,11 @@ class SliceProjectionOp(LinearOperator):
         offsets = torch.tensor(list(itertools.product([0, 1], repeat=3)))
         # all points that influence a pixel
         # x,y,8-neighbors,(2*w+1)-raylength,3-dimensions input_shape.xinput_shape.yinput_shape.z)
+        # (floor before adding the integer offsets: x + 1 can round up to the next integer in floating point)
         points_influencing_pixel = (
             einops.rearrange(pixel_rotated_y_x_zyx, '   y x zyxdim -> y x 1          1   zyxdim')
             + einops.rearrange(ray, '                   ray zyxdim -> 1 1 1          ray zyxdim')
-            + einops.rearrange(offsets, '        neighbors zyxdim -> 1 1 neighbors 1   zyxdim')
-        ).floor()  # y x neighbors ray zyx
+        ).floor() + einops.rearrange(offsets, 'neighbors zyxdim -> 1 1 neighbors 1   zyxdim')  # y x neighbors ray zyx
         # directional distance in source volume coordinate system
         distance = pixel_rotated_y_x_zyx[:, :, None, None, :] - points_influencing_pixel
         # Inverse rotation projects this back to the original coordinate system, i.e
